@@ -17,6 +17,7 @@ import dataclasses
 
 from sa.core import AnalysisError
 from sa.pyindex import get_module, dotted, src, kwarg, calls_in
+from sa import flow
 
 PYTD = "pytype/pytd/pytd.py"
 NODE = "pytype/pytd/parse/node.py"
@@ -308,3 +309,50 @@ def serialisation_instances(ctx):
               f"SerializableAst.{fld} is built from {src(a)}; the module list "
               "must be sorted (it comes from a dict filled in visiting order)",
               {"value": src(a)})
+
+
+# ---------------------------------------------------------------------------
+# Reaching definitions of local names (E3, intra-procedural)
+# ---------------------------------------------------------------------------
+
+_DEFS = (ast.FunctionDef, ast.AsyncFunctionDef, ast.ClassDef)
+
+
+def stored_names(unit):
+  """Names (re)bound when `unit` is evaluated (nested defs bind their name)."""
+  out = set()
+  todo = [unit]
+  while todo:
+    n = todo.pop()
+    if isinstance(n, _DEFS):
+      out.add(n.name)
+      continue
+    if isinstance(n, ast.Lambda):
+      continue
+    if isinstance(n, ast.Name) and isinstance(n.ctx, (ast.Store, ast.Del)):
+      out.add(n.id)
+    elif isinstance(n, ast.ExceptHandler) and n.name:
+      out.add(n.name)
+    todo.extend(ast.iter_child_nodes(n))
+  return out
+
+
+def reaching(fn):
+  """May-flow of (name, defining unit) facts over one function."""
+  def gen(unit):
+    return {(nm, unit) for nm in stored_names(unit)}
+
+  def kill(unit):
+    names = stored_names(unit)
+    if not names:
+      return None
+    return lambda fact: fact[0] in names
+  return flow.flow(fn, gen, kill, mode="may")
+
+
+def defs_at(rd, stmt, name):
+  """Definitions of `name` that may reach `stmt` ([] = parameter/global)."""
+  st = rd.before.get(stmt)
+  if st is None:
+    return []
+  return [d for (n, d) in st if n == name]
